@@ -7,6 +7,9 @@ import (
 	"reflect"
 	"sort"
 	"strings"
+	"sync"
+	"sync/atomic"
+	"time"
 
 	json "github.com/go-json-experiment/json"
 	"github.com/go-json-experiment/json/jsontext"
@@ -844,4 +847,75 @@ func (sc *Hist) poolFault(p *HistPlan, op PoolOp, penv *peers.Env, st *core.Stat
 			}
 		}
 	}
+}
+
+// ---------------------------------------------------------------------------
+// Auxiliary, outside the deterministic core: the same call pool on real
+// goroutines under the race detector. The race detector has no false
+// positives; a finding carries the seed but replays only probabilistically.
+
+// RaceResult is what the race run reports.
+type RaceResult struct {
+	Specs      int      `json:"specs"`
+	Calls      int64    `json:"calls"`
+	Goroutines int      `json:"goroutines"`
+	Mismatches []string `json:"mismatches"`
+	WallS      float64  `json:"wall_s"`
+}
+
+// RunRace builds a pool of calls from seed, computes every outcome alone,
+// then runs them concurrently for the given duration.
+func RunRace(seed uint64, goroutines int, dur time.Duration) *RaceResult {
+	t := core.NewTape(seed)
+	env := &Env{Prop: "C18", Stats: core.NewStats()}
+	sc := &Hist{}
+	beh := map[int]peers.Behaviour{}
+	var specs []HistSpec
+	for i := 0; i < 120; i++ {
+		sp := sc.planSpec(t, env, i, beh)
+		if sp.Kind == hkBig || sp.Kind == hkDeep {
+			if i%3 != 0 {
+				continue // keep a few of the heavy ones only
+			}
+		}
+		specs = append(specs, sp)
+	}
+	peers.Cur = &peers.Env{Beh: beh, Quiet: true}
+	base := make([]outcome, len(specs))
+	h0 := &histRun{env: env}
+	for i := range specs {
+		base[i] = h0.exec(i, &specs[i])
+	}
+	res := &RaceResult{Specs: len(specs), Goroutines: goroutines}
+	var mu sync.Mutex
+	var wg sync.WaitGroup
+	var calls atomic.Int64
+	t0 := time.Now()
+	deadline := t0.Add(dur)
+	for g := 0; g < goroutines; g++ {
+		wg.Add(1)
+		go func(g int) {
+			defer wg.Done()
+			h := &histRun{env: env}
+			r := core.Mix(seed, uint64(g))
+			for time.Now().Before(deadline) {
+				r = core.Mix(r, 1)
+				i := int(r % uint64(len(specs)))
+				got := h.exec(i, &specs[i])
+				h.snaps = h.snaps[:0]
+				calls.Add(1)
+				if got != base[i] {
+					mu.Lock()
+					if len(res.Mismatches) < 5 {
+						res.Mismatches = append(res.Mismatches, fmt.Sprintf("spec %d (%s %s): concurrently %v ; alone %v", i, hkNames[specs[i].Kind], specs[i].Desc, got, base[i]))
+					}
+					mu.Unlock()
+				}
+			}
+		}(g)
+	}
+	wg.Wait()
+	res.Calls = calls.Load()
+	res.WallS = time.Since(t0).Seconds()
+	return res
 }
